@@ -68,7 +68,7 @@ PROPS = {
     "C12": {
         "lean": ["OxiModel.Props.C12"],
         "needs_binary": True,
-        "streams": [{"name": "corr-io", "quick": 30, "thorough": 30}],
+        "streams": [{"name": "corr-io", "quick": 42, "thorough": 42}],
         "oracles": [],
         "claim": "Lean 4 theorems about the I/O automaton (which system calls touch input, destination and standard output, in which order, and what a failure of each leads to) for EVERY routing, input kind, "
                  "--preserve setting, fault position k and fault kind: no mutating call belongs to the phase before the complete output exists (only the --dir mkdir); a kill or fatal error at any call of that "
@@ -152,7 +152,7 @@ PROPS = {
                  "it parsed (dump hook) must equal the model's; its output must be byte-identical to optimize_from_memory called with those options and be delivered in place / --out / --dir/<name> / "
                  "stdout (nothing else on that stream) / nowhere (--pretend, also combined with --dir/--out/--stdout in either order; no file may appear anywhere but at the destination); the (input, output) "
                  "pairs collect_files produced (second dump hook) must equal the model's fileOut; exit statuses over mixed file sets and directory recursion are compared with the model.",
-        "note": "Partial: clap itself (C1), process exit plumbing and log routing are runtime; they are exercised by the real binary, not proved. stdin input is not generated.",
+        "note": "Partial: clap itself (C1), process exit plumbing and log routing are runtime; they are exercised by the real binary, not proved. Standard input (`oxipng -`) is generated with and without a destination option, improvable or a fixed point of the same options.",
         "technique": "Lean 4 proof (decision tables, decide over finite preset table) + real-binary correspondence and routing oracle",
         "partial_note": "clap / process plumbing are outside the model",
         "rule": "flag vectors over -o{0..6,max} -f{single,range,list} -a --scale16 --fast --force --fix --nb --nc --np --ng --nx --nz -i{0,1,keep} -s --strip{safe,all,list} --keep{list,display} -Z --zi --zc, "
